@@ -105,6 +105,7 @@ func init() {
 	reg("domain", Wrap, 1, nil, ix(0), true, 2)
 	reg("issuelink", Wrap, 2, nil, ix(0, 1), true, 2)
 	reg("tags", Wrap, 2, ix(1), ix(0), true, 2)
+	reg("tagsafe", Wrap, 2, nil, ix(0), true, 2) // a Safe() tag value (neutral: C12 enumerates tag keys, not values), a nil value, an int value
 	reg("assertion", Wrap, 0, nil, nil, true, 2)
 	reg("http", Wrap, 0, nil, nil, true, 2)
 	reg("grpc", Wrap, 0, nil, nil, true, 2)
@@ -278,6 +279,12 @@ func Build1(n *Node, m Built) error {
 	case "tags":
 		ctx := context.Background()
 		ctx = logtags.AddTag(ctx, S[0], S[1])
+		ctx = logtags.AddTag(ctx, "n", n.N[0])
+		return errors.WithContextTags(kids[0], ctx)
+	case "tagsafe":
+		ctx := context.Background()
+		ctx = logtags.AddTag(ctx, S[0], errors.Safe(S[1]))
+		ctx = logtags.AddTag(ctx, "nilv", nil)
 		ctx = logtags.AddTag(ctx, "n", n.N[0])
 		return errors.WithContextTags(kids[0], ctx)
 	case "assertion":
